@@ -356,3 +356,54 @@ def run(ctx):
         # the bytes compared are the ones read
         rx = [b for b, t in dec.calls() if A.cname(t).endswith("::read_exact") or (t.get("callee") or "").endswith("io::Read::read_exact")]
         ctx.ob("R-C15.5", dec, "trailer-bytes-are-read", bool(rx), "trailer is read with read_exact into a fixed-size buffer" if rx else "trailer bytes are never read", nontrivial=False)
+
+    # ---- R-C15.7 what recovery ACTS on is covered by the checksum: the batch's seqno decides the order in which the record is
+    # applied relative to everything else (and whether replay skips it).  Some hashing has to see it: in the Start arm, in the
+    # End arm before `finish`, or as an update argument built from batch_seqno.
+    if br:
+        og = ctx.og(br)
+        nxt = [b for b, t in br.calls() if A.cname(t) == "<journal::reader::JournalReader as std::iter::Iterator>::next"]
+        sw, arms = variant_switch(br, KINDS)
+        ups = [(b, t) for b, t in br.calls() if A.cname(t).endswith("Hasher>::update") or A.cname(t).endswith("Xxh3::update")]
+        fin = [b for b, t in br.calls() if A.cname(t).endswith("Hasher>::finish") or A.cname(t).endswith("Xxh3::finish") or A.cname(t).endswith("::digest")]
+        start_region = A.reach(br, [arms["Start"]], avoid=nxt) if "Start" in arms else set()
+        end_region = A.reach(br, [arms["End"]], avoid=nxt + fin) if "End" in arms else set()
+        covered = [b for b, t in ups if b in start_region or b in end_region or any(
+            (x.k == "field" and x.a[1] in ("batch_seqno", "seqno")) for x in A.walk(og.of_operand(t["args"][1])))]
+        ctx.ob("R-C15.7", br, "batch-seqno-is-covered-by-the-checksum", bool(covered) and bool(ups) and "Start" in arms,
+               "the Start marker's fields take part in the checksum (bb%s)" % covered[:2] if covered else
+               "the checksum is computed over the re-encoded Item/Clear entries only: the Start marker's seqno is not covered, so an altered seqno is accepted — the record is then applied in a different place of the history (a state no prefix of the commit history ever had, or a deleted key resurrected)")
+        ctx.floor("R-C15.7", "hasher updates in the batch reader", ups, 2)
+
+    # ---- R-C15.8 a decode failure is taken for the torn tail only after looking at what follows.  JournalReader::next answers a
+    # failed decode by cutting the file at the last good position and ending the iteration.  That is right for the tail a crash
+    # leaves; a damaged record in the MIDDLE of a journal (or in a sealed journal, which has no torn tail) is followed by complete
+    # records, which are then thrown away while tables / later journals keep their effects.  Deciding between the two needs a look
+    # at the bytes after the failure (or at the file length) before truncating.
+    jr = ctx.fn("<journal::reader::JournalReader as std::iter::Iterator>::next", "R-C15.8")
+    if jr:
+        dec_b = R.call_blocks(jr, ("journal::entry::Entry::decode_from",))
+        ok = False
+        detail = "JournalReader::next does not call Entry::decode_from"
+        if dec_b:
+            rf = A.result_flow(jr, dec_b[0])
+            errb = list(rf.err_blocks)
+            if not errb:
+                # matched with `match`: the Err arm is the switch target labelled Err
+                s_ = jr.succs(dec_b[0])[0]
+                term_, labels = A.switch_info(jr, s_) if jr.term(s_)["k"] == "switch" else (None, {})
+                errb = [tg for tg, ns in labels.items() if "Err" in ns]
+            trunc = [b for b, t in jr.calls() if ctx.cg.reaches(A.cname(t), {"std::fs::File::set_len"}) or A.cname(t) == "std::fs::File::set_len"]
+            LOOK = ("std::io::Read::", "std::io::BufRead::", "as std::io::Read>::", "as std::io::BufRead>::", "std::fs::File::metadata", "std::fs::metadata", "::seek")
+            looks = [b for b, t in jr.calls() if any(k in A.cname(t) for k in LOOK) and not A.cname(t).endswith("stream_position")]
+            for b, t in jr.calls():
+                n = A.cname(t)
+                if n in F.fns and n != "journal::entry::Entry::decode_from" and any(any(k in A.cname(tt) for k in LOOK) and not A.cname(tt).endswith("stream_position") for _, tt in F.fns[n].calls()):
+                    looks.append(b)
+            blind = [tb for tb in trunc if tb in A.reach(jr, errb, avoid=looks)]
+            ok = bool(errb) and bool(trunc) and not blind
+            detail = "on the decode-failure edge the reader inspects the remainder before it truncates" if ok else \
+                "on the decode-failure edge the file is cut at the last good position (bb%s) without a look at what follows: a damaged record in the middle of a journal, or anywhere in a sealed journal, silently ends the journal there — the complete records after it are discarded while flushed tables and later journals keep their effects (not a prefix of the commit history)" % blind[:2]
+            if not trunc:
+                ok, detail = True, "the reader no longer truncates on a decode failure"
+        ctx.ob("R-C15.8", jr, "decode-failure-is-the-tail-only-after-looking-at-what-follows", ok, detail)
